@@ -100,6 +100,23 @@ def _canon(t):
     return repr(shape.erase_types(t))
 
 
+def _pos_lark(t):
+    """Unshaped lark tree with every token as (value, start offset): at text level two derivations may differ only in where a token
+    was matched (ignored text before or after it)."""
+    if isinstance(t, Tree):
+        return (str(t.data),) + tuple(_pos_lark(c) for c in t.children)
+    if isinstance(t, Token):
+        return ('tok', t.value, t.start_pos)
+    return repr(t)
+
+
+def _pos_deriv(node, inp):
+    if node[0] == 't':
+        return ('tok', inp.value(node[4], node[5]), node[4])
+    _, alt, children, i, j = node
+    return (alt.alias or alt.rule.name,) + tuple(_pos_deriv(c, inp) for c in children if c[0] != 'none')
+
+
 def _body(rec, xs):
     if TEXT:
         inp_arg = hs.class_string(xs, REPS)
@@ -179,6 +196,14 @@ def _body(rec, xs):
             return hs.fail(rec, 'expanded result differs from the set of derivations', input=key_in, missing=sorted(want - gotset)[:3],
                            extra=sorted(gotset - want)[:3])
         if WHAT == 'forest':
+            if TEXT:
+                # identity of a derivation at text level includes the offsets of its tokens
+                gotp = [repr(_pos_lark(x)) for x in trees]
+                wantp = {repr(_pos_deriv(d, inp)) for d in ds}
+                if set(gotp) != wantp:
+                    return hs.fail(rec, 'the derivations in the forest (with token offsets) differ from the set of derivations', input=key_in,
+                                   missing=sorted(wantp - set(gotp))[:3], extra=sorted(set(gotp) - wantp)[:3])
+                got, gotset = gotp, set(gotp)
             if len(got) != len(gotset):
                 return hs.fail(rec, 'the forest encodes a derivation more than once (duplicate alternatives)', input=key_in, trees=len(got), distinct=len(gotset))
             if _canon(shape.of_lark(resolved)) not in want:
